@@ -6,9 +6,11 @@ case (kind=wr) : `suite=<none|gcm|cbc> pmtu=<int> n=<payload bytes>`      one ap
   observed     : `max=<maxPayloadSizeForWrite> en=<explicitNonceLen> dg=<size>.<size>… or -`
 case (kind=fl) : `suite=… pmtu=… recs=<n1>.<n2>… or -`   handshake records written while buffering, then flush
   observed     : `early=<datagrams before flush> dg=<sizes>`
-case (kind=e2e): `suite=<ecc-gcm|ecc-cbc|ecdhe-gcm|ecdhe-cbc> cp=<client PMTU> sp=<server PMTU> sizes=<n>.<n>…`
+case (kind=e2e): `suite=<ecc-gcm|ecc-cbc|ecdhe-gcm|ecdhe-cbc> cp=<client PMTU> sp=<server PMTU> sizes=<n>.<n>…
+                  rsizes=<n>.<n>… stream=<n>`   (PMTU is a send-side setting: cp bounds client→server, sp server→client)
   observed     : `hs=ok|fail hsC=<handshake datagram sizes of the client> hsS=<… server>
-                  w=<n>:<datagram sizes>:<ReadFrom lengths at the peer, "!" when the bytes differ>,…`
+                  w=<n>:<datagram sizes>:<ReadFrom lengths at the peer, "!" when the bytes differ>,…   client WriteTo
+                  v=…  server WriteTo     W=<n>:<datagram sizes>:<Read lengths>  client Write / server Read     V=… converse`
   (handshake datagram sizes depend on certificates and signatures: they are inputs to the
    model — echoed — and judged by the spec only)
 -/
@@ -68,52 +70,71 @@ def judgeFL (ct ot : List String) : Option Verdict := do
     | _, _ => if (kv ot "panic").isSome then some ("panic", "the write path panicked") else some ("shape", "unparseable observation")
   pure { model := model, spec := spec, trivial := recs.isEmpty, note := if dg.length == 1 then "oneflight" else "empty" }
 
+/-- model of one direction: per size `n:<datagram sizes>:<lengths read at the peer>` -/
+def showWay (pmtu : Int) (c : Cipher) (szs : List Nat) : String :=
+  if szs.isEmpty then "-" else
+  ",".intercalate (szs.map fun n =>
+    let pieces := writeRecordPieces here pmtu c (List.replicate n 0)
+    s!"{n}:{showSizes (pieces.map fun p => recordLen here c p.length)}:{showSizes (pieces.map List.length)}")
+
+/-- spec on one direction: every datagram within the SENDER's path MTU, one datagram and one
+read of exactly the payload when it is at most the maximum, nothing lost otherwise -/
+def judgeWay (su : DtlcpTxSpec.Suite) (pmtu : Int) (m : Nat) (dir : String) (isStream : Bool) :
+    List String → List Nat → Option (String × String)
+  | [], _ => none
+  | e :: es, n :: ns =>
+    match e.splitOn ":" with
+    | [_, dgs, rd] =>
+      match parseSizes dgs with
+      | some dg =>
+        match DtlcpTxSpec.judgeWrite su pmtu m n dg with
+        | some f => some f
+        | none =>
+          if rd.endsWith "!" || (rd.splitOn "err").length > 1 then
+            some ("delivery", s!"{dir}: the peer did not read back the {n} bytes written (read {rd}) although no datagram was lost")
+          else if !isStream && n ≤ m && rd != toString n then
+            some ("boundary", s!"{dir}: a payload of {n} bytes was read as {rd}")
+          else
+            match parseSizes rd with
+            | some ls => if ls.sum != n then some ("delivery", s!"{dir}: {ls.sum} of {n} bytes arrived") else judgeWay su pmtu m dir isStream es ns
+            | none => some ("shape", "unparseable read lengths")
+      | none => some ("delivery", s!"{dir}: write of {n} bytes failed")
+    | _ => some ("shape", "unparseable write entry")
+  | _, [] => some ("shape", "more write entries than sizes")
+
+def entries (s : String) : List String := if s == "-" || s == "" then [] else s.splitOn ","
+
 def judgeE2E (ct ot : List String) : Option Verdict := do
   let (c, su) ← (kv ct "suite").bind cipherOf
   let cp ← (kv ct "cp").bind parseInt
   let sp ← (kv ct "sp").bind parseInt
   let szs ← (kv ct "sizes").bind parseSizes
-  let m := maxPayloadSizeForWrite here cp c
-  let ws := szs.map fun n =>
-    let pieces := writeRecordPieces here cp c (List.replicate n 0)
-    s!"{n}:{showSizes (pieces.map fun p => recordLen here c p.length)}:{showSizes (pieces.map List.length)}"
+  let rszs := ((kv ct "rsizes").bind parseSizes).getD []
+  let st := (kvNat ct "stream").getD 0
+  let stl := if st == 0 then [] else [st]
+  let mc := maxPayloadSizeForWrite here cp c
+  let ms := maxPayloadSizeForWrite here sp c
   -- handshake datagram sizes are inputs (certificates, signatures): echoed
   let hs := (kv ot "hs").getD "?"
   let hsC := (kv ot "hsC").getD "?"
   let hsS := (kv ot "hsS").getD "?"
-  let model := if hs == "ok" then s!"hs=ok hsC={hsC} hsS={hsS} w={",".intercalate ws}" else s!"hs=ok hsC={hsC} hsS={hsS}"
+  let model := if hs == "ok" then
+      s!"hs=ok hsC={hsC} hsS={hsS} w={showWay cp c szs} v={showWay sp c rszs} W={showWay cp c stl} V={showWay sp c stl}"
+    else s!"hs=ok hsC={hsC} hsS={hsS}"
   let spec : Option (String × String) :=
     if hs != "ok" then some ("handshake-failed", s!"the handshake did not complete at PMTU {cp}/{sp}") else
-    match parseSizes hsC, parseSizes hsS, kv ot "w" with
-    | some dc, some ds, some w =>
-      match DtlcpTxSpec.judgeFlight cp dc with
-      | some f => some f
-      | none =>
-        match DtlcpTxSpec.judgeFlight sp ds with
-        | some f => some f
-        | none =>
-          let entries := w.splitOn ","
-          let rec go : List String → List Nat → Option (String × String)
-            | [], _ => none
-            | e :: es, n :: ns =>
-              match e.splitOn ":" with
-              | [_, dgs, rd] =>
-                match parseSizes dgs with
-                | some dg =>
-                  match DtlcpTxSpec.judgeWrite su cp m n dg with
-                  | some f => some f
-                  | none =>
-                    if rd.endsWith "!" || (rd.splitOn "err").length > 1 then
-                      some ("delivery", s!"the peer did not read back the {n} bytes written: {rd}")
-                    else if n ≤ m && rd != toString n then
-                      some ("boundary", s!"a payload of {n} bytes was read as {rd}")
-                    else go es ns
-                | none => some ("shape", "unparseable write entry")
-              | _ => some ("shape", "unparseable write entry")
-            | _, [] => some ("shape", "more write entries than sizes")
-          go entries szs
-    | _, _, _ => some ("shape", "unparseable observation")
-  pure { model := model, spec := spec, trivial := false, note := "e2e" }
+    match parseSizes hsC, parseSizes hsS with
+    | some dc, some ds =>
+      -- the data phase first: the flight verdict (known finding K3) must not mask it
+      (judgeWay su cp mc "client->server" false (entries ((kv ot "w").getD "-")) szs).orElse fun _ =>
+      (judgeWay su sp ms "server->client" false (entries ((kv ot "v").getD "-")) rszs).orElse fun _ =>
+      (judgeWay su cp mc "client Write" true (entries ((kv ot "W").getD "-")) stl).orElse fun _ =>
+      (judgeWay su sp ms "server Write" true (entries ((kv ot "V").getD "-")) stl).orElse fun _ =>
+      (DtlcpTxSpec.judgeFlight cp dc).orElse fun _ =>
+      (DtlcpTxSpec.judgeFlight sp ds)
+    | _, _ => some ("shape", "unparseable observation")
+  pure { model := model, spec := spec, trivial := false,
+         note := if cp == sp then "e2e-symmetric" else "e2e-asymmetric" }
 
 def judge (c o : String) : Option Verdict :=
   let ct := tokens c
